@@ -7,6 +7,9 @@ pair in {absent, normal edge, catch edge}; every insertion order of the successo
 HISTORIES on one Graph object: build a <=3-node graph (normal and catch edges; a reduced 4-node set), query, apply one
 (thorough: two) mutation(s) of the Graph API {add_edge, add_catch_edge, remove_node, entry change} that keep the graph
 rooted, query after each: every answer must be the dominator tree of the graph as it is at that moment.
+Size-gated paths: small cores embedded in graphs of more than recursionlimit/4 nodes -- behind / before a chain of
+L1 = limit//4+50 or L2 = 2*L1 plain nodes (optionally every core node a diamond), or with L1 leaf successors on the
+entry ('big fan'); chain, tail and leaf dominators are known analytically, the core's by the removal definition.
 Structural sub-spaces of larger graphs (both tiers, complete within their definition): every rooted 5-node graph with
 at most 7 edges; for 5 and 6 nodes every 'DFS spanning tree + at most 3 extra edges' graph (all ordered trees x all
 sets of <= 3 non-tree pairs).
@@ -43,12 +46,25 @@ MANIFEST = {
 }
 
 SPARSE5 = 7        # every rooted 5-node graph with at most this many edges (102 262 graphs)
+NLONG = 48         # shards of the long-chain / big-fan families (case index modulo)
 CH5 = 1 << 17      # masks per shard for 5 nodes (256 shards)
 CH4 = 1 << 11      # masks per shard for 4 nodes (32 shards)
 
 
 def space(ctx):
-    return {"sparse_5_nodes": "every rooted digraph on 5 labelled nodes (entry 0, self-loops allowed) with at most %d "
+    lim = D.recursion_limit()
+    return {"long_chain_and_big_fan": {
+                "recursion_limit_under_androguard.decompiler": lim, "L1": lim // 4 + 50, "L2": 2 * (lim // 4 + 50),
+                "chain": "core behind (entry -> chain of L plain nodes -> core) or before (every core node -> tail of L "
+                         "nodes) a chain; quick: every rooted core on <= 3 nodes x both modes x L1, every core on <= 2 "
+                         "nodes x both modes x {plain, each node expanded to a diamond} x {L1, L2}; thorough: cores on "
+                         "<= 3 nodes and 4-node cores with <= 5 edges x modes x plain/diamond x L1/L2, 5-node tree+<=2 "
+                         "cores behind L1",
+                "fan": "core whose entry also has L1 leaf successors; quick: every core on <= 3 nodes and every 'ordered "
+                       "DFS tree + <= 2 extra edges' core on 5 nodes, leaves after the core edges; thorough: leaves "
+                       "before/after, tree+<=3 on 5 nodes, 4-node cores with <= 6 edges",
+                "note": "pristine HEAD handles the 2600- and 4000-node chains (recursive) without RecursionError"},
+            "sparse_5_nodes": "every rooted digraph on 5 labelled nodes (entry 0, self-loops allowed) with at most %d "
                               "edges: all subsets of the 25 ordered pairs of size 4..%d, kept iff every node is "
                               "reachable (102 262 graphs)" % (SPARSE5, SPARSE5),
             "set_iteration_order": "sparse and tree families run twice: node sets (dom_lt's predecessor sets and buckets) "
@@ -75,6 +91,8 @@ def shards(ctx):
     # structurally defined sub-spaces of 5- and 6-node graphs (quick and thorough): complete within their definition
     s += [("sparse", 5, SPARSE5, k, 32) for k in range(32)]
     s += [("tree", 5, 3, t) for t in range(14)] + [("tree", 6, 3, t) for t in range(42)]
+    # size-gated code paths: a small core inside a graph of > recursionlimit/4 nodes (long chain / big fan of leaves)
+    s += [("long", i, NLONG) for i in range(NLONG)]
     # histories on ONE Graph object: query, mutate through the API, query again (the answer must follow the graph)
     depth = 2 if ctx.thorough else 1
     s += [("hist", "bin", 1, 0, 2, 1, depth), ("hist", "bin", 2, 0, 16, 1, depth)]
@@ -241,11 +259,68 @@ def run_hist(ctx, shard, acc):
     return acc
 
 
+def core_class(k, edges):
+    rows = G.rows_of_edges(k, edges)
+    return "n%d:%s" % (k, G.shape(k, rows, domtree.dominator_sets(k, rows, 0)))
+
+
+def judge_long(case, cache):
+    """One long-chain / big-fan case.  Reference: removal definition on the small core, analytic for the chain / tail /
+    leaves (idom of chain node i is node i-1, of a leaf the core entry).  Returns (key, message) or None."""
+    g, nodes, edges, lc = D.build_long(case, cache)
+    K = lc["K"]
+    core_idoms = domtree.idoms(K, G.rows_of_edges(K, lc["core_edges"]), 0)
+    want = D.long_idoms(lc, core_idoms)
+    label = "long-chain" if case["kind"] == "chain" else "big-fan"
+    key = "idom:%s:%s" % (label, core_class(case["k"], [tuple(e) for e in case["core"]]))
+    try:
+        got = g.immediate_dominators()
+    except RecursionError as e:
+        return key + ":recursion", "%r: immediate_dominators raised RecursionError: %s" % (case, e)
+    except Exception as e:      # noqa
+        return key, "%r: immediate_dominators raised %s: %s" % (case, type(e).__name__, e)
+    pos = {nd: i for i, nd in enumerate(nodes)}
+    bad = []
+    for v in range(lc["n"]):
+        d = want[v]
+        gd = got.get(nodes[v], "<missing>")
+        gi = gd if gd is None or gd == "<missing>" else pos.get(gd, "<foreign>")
+        if gi != d:
+            bad.append("node %d: idom %r, definition says %r" % (v, gi, d))
+            if len(bad) >= 4:
+                break
+    if bad:
+        return key, ("%s graph of %d nodes, core (k=%d, edges %s%s) at index %d, %s: %s"
+                     % (label, lc["n"], case["k"], case["core"], ", every node a diamond" if case.get("diamond") else "",
+                        lc["core_off"], {x: case[x] for x in ("mode", "first", "L") if x in case}, "; ".join(bad)))
+    return None
+
+
+def run_long(ctx, shard, acc):
+    _, part, nparts = shard
+    cache = {}
+    for i, case in enumerate(G.long_cases(ctx.thorough, D.recursion_limit())):
+        if i % nparts != part:
+            continue
+        res = judge_long(case, cache)
+        acc.n += 1
+        acc.nt_disjoint += 1
+        acc.count("long_%s_graphs" % case["kind"])
+        acc.count("long_nodes_total", case["L"] + case["k"])
+        if res:
+            acc.violation(res[0], dict(case, fam="long"), res[1])
+        if i == 300:
+            acc.sample(dict(case, fam="long"))
+    return acc
+
+
 def run_shard(ctx, shard):
     acc = Acc()
     kind = shard[0]
     if kind == "dex":
         return run_dex(ctx, shard, acc)
+    if kind == "long":
+        return run_long(ctx, shard, acc)
     if kind == "hist":
         return run_hist(ctx, shard, acc)
     n = shard[1]
@@ -334,6 +409,9 @@ def judge_dex(dm):
 
 
 def replay(ctx, w):
+    if w["fam"] == "long":
+        res = judge_long(w, {})
+        return res[1] if res else None
     if w["fam"] == "hist":
         res = run_history(w["n"], [tuple(e) for e in w["edges"]], w["ops"])
         return res[1] if res else None
